@@ -1,6 +1,7 @@
 import TFV.Properties.Tree
 import TFV.Properties.TreeCR
 import TFV.Properties.Runs
+import TFV.Properties.Src.Levels
 #print axioms TFV.Tree.C08_subtree_wf
 #print axioms TFV.Tree.C08_concat_wf
 #print axioms TFV.Tree.C08_depth_concat
@@ -14,3 +15,6 @@ import TFV.Properties.Runs
 #print axioms TFV.Tree.C08_uniformX
 #print axioms TFV.Runs.C08_run_closed
 #print axioms TFV.Runs.C08_run_closed_standard_point
+#print axioms TFV.SrcTie.C08_src_get_levels
+#print axioms TFV.SrcTie.C08_src_get_levels_any
+#print axioms TFV.SrcTie.C08_src_get_levels_subterm
